@@ -26,6 +26,15 @@ def build(case):
     rnd = common.rng('c07-msg-%d' % case['cls'])
     cls = msgs.classes()[case['cls']]
     m = msgs.fill(cls(), rnd, uid_len=case.get('uid_len', 18), ids=9)
+    if case.get('sparse'):
+        # a peer that leaves out optional elements this library's own constructors always emit: the message must be
+        # handed on as it was sent
+        optional = [t for t in (0x00000600, 0x00000700, 0x00001000, 0x00001001, 0x00001002, 0x00001005, 0x00001008, 0x00001020,
+                                0x00001021, 0x00001022, 0x00001023, 0x00001030, 0x00001031, 0x00000003)
+                    if t in m.command_set]
+        for k, t in enumerate(optional):
+            if (k + case['sparse']) % 2:
+                del m.command_set[t]
     data = None
     ts = [uid.ImplicitVRLittleEndian, uid.ExplicitVRLittleEndian, uid.ExplicitVRBigEndian][case.get('ts', 0)]
     if case['data'] is not None:
@@ -244,6 +253,8 @@ def run(chk):
     for c in range(ncls):
         cases.append({'cls': c, 'pc': 1 + 2 * c, 'maxlen': 30, 'data': None})            # several command fragments
         cases.append({'cls': c, 'pc': 255 - 2 * c, 'maxlen': 0, 'data': 5})
+        cases.append({'cls': c, 'pc': 5, 'maxlen': 0, 'data': None, 'sparse': 1})
+        cases.append({'cls': c, 'pc': 9, 'maxlen': 38, 'data': 12, 'sparse': 2})
         cases.append({'cls': c, 'pc': 3, 'maxlen': 40 + c, 'data': 37 + c})
         cases.append({'cls': c, 'pc': 11, 'maxlen': 46, 'data': 85})
     store = [i for i, k in enumerate(msgs.classes()) if k.__name__ == 'CStoreRQMessage'][0]
